@@ -1103,6 +1103,12 @@ class TypeSpec:
         return bad
 
     def well_formed_for_text(self, vals):
+        """False for values that the RFC of the type does not regard as well-formed content
+        (an opaque key / digest / signature / certificate of length 0, a non-canonical bitmap):
+        such records must still print, but the text round trip is not demanded of them."""
+        for f in self.fields:
+            if isinstance(f, Blob) and not isinstance(f, (QStr, NsapHex, WksBitmap)) and f.prefix == 0 and len(vals[f.attr]) == 0:
+                return False
         return True if self.text_ok is None else self.text_ok(vals)
 
 
@@ -1470,7 +1476,7 @@ def build_specs():
         TypeSpec(
             ANY,
             "HIP",
-            [CharStr("hit", nominal=bytes.fromhex("200100107b1a74df365639cc39f1d578")), U("algorithm", 8, nominal=2), Blob("key", "b641", prefix=2, hi=65535, nominal=bytes(range(40)), big=3000), NameList("servers")],
+            [CharStr("hit", lo=1, nominal=bytes.fromhex("200100107b1a74df365639cc39f1d578")), U("algorithm", 8, nominal=2), Blob("key", "b641", prefix=2, lo=1, hi=65535, nominal=bytes(range(40)), big=3000), NameList("servers")],
             wire_fn=_wire_hip,
             text_fn=_text_hip,
         )
